@@ -130,17 +130,18 @@ def ints(tokens, shape=None):
 # comparison
 # --------------------------------------------------------------------------
 def ulp_dist(a, b):
-    """maximum distance in units in the last place between two float arrays"""
+    """maximum distance in units in the last place between two float arrays (exact)"""
     a = np.asarray(a, dtype=np.float64).reshape(-1)
     b = np.asarray(b, dtype=np.float64).reshape(-1)
     if a.size == 0:
-        return 0
-    ia = a.view(np.int64).copy()
-    ib = b.view(np.int64).copy()
-    ia[ia < 0] = np.int64(-2**63) - ia[ia < 0]
-    ib[ib < 0] = np.int64(-2**63) - ib[ib < 0]
-    with np.errstate(over="ignore"):
-        d = np.abs(ia.astype(np.float64) - ib.astype(np.float64))
+        return 0.0
+
+    def key(x):
+        u = x.view(np.uint64)
+        neg = (u >> np.uint64(63)).astype(bool)
+        return np.where(neg, ~u, u | np.uint64(1 << 63))
+    ka, kb = key(a), key(b)
+    d = np.where(ka > kb, ka - kb, kb - ka)
     return float(d.max())
 
 
